@@ -93,6 +93,14 @@ def is_union(v: dict) -> bool:
     return v.get("ty") == "union"
 
 
+# ---- inherited members (c05_inherit.py, Model/FieldInherit.lean): a vector with a key "relist" is a
+# member of a BASE schema seen from a subclass schema that lists it again in a `required` list of its
+# own — "no" / "owner" (the schema owning the allOf) / "sibling" (an allOf item carrying only
+# `required`) / "item" (the `required` list of an allOf item with properties)
+def relist_of(v: dict) -> str | None:
+    return v.get("relist")
+
+
 # ---- `$ref`-typed members: a reference to an object definition that may admit null itself
 # (`type: ["object", "null"]`, or the OpenAPI keyword `nullable: true` next to `type: object`); the
 # definition stands before / after the referring schema, in another file, … (c05_refs.py, Model/FieldRef.lean)
@@ -231,7 +239,7 @@ def vec_key(v: dict) -> str:
     return (
         f"{KIND_TAG[v['kind']]} {v['nullsrc']} {'req' if v['inreq'] else 'opt'} {v['dflt']} {ty} "
         f"{'con' if v['constr'] else 'nocon'} {bits} {v['via']} {v['name']}"
-    )
+    ) + (f" inherited:relisted-{v['relist']}" if relist_of(v) else "")
 
 
 # ---------------------------------------------------------------- observation of the rendered member
@@ -710,6 +718,11 @@ def driver_request(v: dict) -> str:
             f"field.renderr {KIND_TAG[v['kind']]} {int(v['inreq'])} {v['dflt']} {bits} {v['via']} {v['name']} "
             f"{int(v['opts']['sc'])} {v['target']} {int(c05_refs.is_forward(v))}"
         )
+    if relist_of(v):
+        return (
+            f"field.renderi {KIND_TAG[v['kind']]} {NULLMODE[v['nullsrc']]} {int(v['inreq'])} {v['dflt']} {v['ty']} "
+            f"{int(v['constr'])} {bits} {v['name']} {int(v['opts']['sc'])} {v['relist']}"
+        )
     if is_union(v):
         return (
             f"field.renderu {KIND_TAG[v['kind']]} {int(v['inreq'])} {v['dflt']} {bits} {v['via']} {v['name']} "
@@ -773,7 +786,8 @@ def clause_failures(v: dict, sem: dict, shape: str, ir_required: bool | None) ->
     Returns classification dicts {clause, mechanism}; the mechanism is read off the vector, the
     rendered shape and the parser's `required`, never off the Lean model."""
     o = v["opts"]
-    R, D = v["inreq"], v["dflt"] != "none"
+    rel = relist_of(v)
+    R, D = v["inreq"] or (rel is not None and rel != "no"), v["dflt"] != "none"
     N = clause_N(v)
     omittable = (not R) or o["fo"] or (o["ud"] and D)
     none_default = v["dflt"] in ("none", "null")
@@ -790,25 +804,36 @@ def clause_failures(v: dict, sem: dict, shape: str, ir_required: bool | None) ->
     if not omittable:
         if not sem["must"] and (N or not D):
             clause = "required_nullable_stays_required" if N else "required_nodefault_must_supply"
-            if ir_required is False:
+            if rel in ("sibling", "item") and not v["inreq"] and ir_required is False:
+                mech = "relisted_in_allof_item_dropped"  # the entry stands in an allOf item: never applied to an inherited member
+            elif ir_required is False:
                 mech = "parser_dropped_required"
             elif has_rendered_default:
                 mech = "default_appended_to_required"
             elif v["kind"] == "pydantic.BaseModel" and "opt=1" in shape and asg == "none":
                 mech = "v1_bare_optional"
+            elif v["kind"] == "dataclasses.dataclass" and rel == "owner" and asg == "none":
+                mech = "dataclass_override_keeps_inherited_default"  # the re-annotation finds the base's class attribute
             else:
                 mech = "other"
             out.append({"clause": clause, "mechanism": mech})
     else:
+        # the copy made for a required-only override of an inherited member is required whatever
+        # --force-optional / --use-default say (and its default is not written)
+        relaxed_override = None
+        if rel == "owner" and ir_required and (o["fo"] or (o["ud"] and D)):
+            relaxed_override = "override_ignores_force_optional" if o["fo"] else "override_ignores_use_default"
         if sem["must"]:
             mech = "strip_default_none" if (o["sd"] and none_default and asg == "none" and "nr=0" in shape) else "other"
+            if relaxed_override:
+                mech = relaxed_override
             out.append({"clause": "optional_omittable", "mechanism": mech})
         elif sem["loads"]:
             if none_default:
                 if sem["omitted"] not in ("none", "absent"):
-                    out.append({"clause": "optional_reads_none", "mechanism": "other"})
+                    out.append({"clause": "optional_reads_none", "mechanism": relaxed_override or "other"})
             elif sem["omitted"] != "dflt":
-                mech = "typeddict_has_no_defaults" if v["kind"] == "typing.TypedDict" and sem["omitted"] == "absent" else "other"
+                mech = "typeddict_has_no_defaults" if v["kind"] == "typing.TypedDict" and sem["omitted"] == "absent" else (relaxed_override or "other")
                 out.append({"clause": "default_value", "mechanism": mech})
             if sem["shared"]:
                 out.append({"clause": "mutable_default_not_shared", "mechanism": "shared_object"})
@@ -826,7 +851,7 @@ def clause_failures(v: dict, sem: dict, shape: str, ir_required: bool | None) ->
             mech = "strict_nullable_overrides_type_list"
         elif v["kind"] == "typing.TypedDict" and "nr=1" in shape:
             mech = "typeddict_notrequired_no_fallback"
-        elif v["nullsrc"] == "oa-flag" and o["sn"] and v["via"] != "own" and not D and v["ty"] != "scalar":
+        elif v["nullsrc"] == "oa-flag" and o["sn"] and (v["via"] != "own" or (rel == "owner" and not v["inreq"])) and not D and v["ty"] != "scalar":
             mech = "late_required_loses_strict_nullable"
         else:
             mech = "other"
@@ -856,6 +881,8 @@ def evaluate(ck: Check, camps: dict, v: dict, r: dict, model: dict | None, recor
             co.hit(f"opt:{t}")
     co.hit(f"via:{v['via']}")
     co.hit(f"name:{v['name']}")
+    if relist_of(v):
+        co.hit(f"inherited:relisted-{v['relist']}")
     if is_ref(v):
         co.hit(f"ref:definition-{v['target']}")
         co.hit(f"ref:place-{v['place']}")
@@ -1122,6 +1149,12 @@ def campaign_order(ck: Check, n: int) -> None:
 def known_findings(ck: Check) -> None:
     """Re-run the stored witness of every open finding on the real code."""
     for f in ck.findings:
+        if "inherit_group" in f["witness"]:
+            from . import c05_inherit
+
+            if c05_inherit.witness_reproduces(ck, f):
+                ck.known(f["id"], f["what"])
+            continue
         if "vectors" in f["witness"]:
             probe = Check(ck.prop, ck.tier)
             probe.findings = []
@@ -1182,14 +1215,40 @@ def search_union(ck: Check) -> None:
             return
 
 
+def search_refs(ck: Check) -> None:
+    """Targeted search: `$ref`-typed members — every place the definition can stand at, every kind,
+    required and not, with the option block."""
+    from . import c05_refs
+
+    camps = {k: ck.campaign("search ($ref-typed members): " + k) for k in ("ir", "render", "sem", "oracle")}
+    run_batch(ck, camps, c05_refs.core_block())
+    vs = [] if ck.failures else c05_refs.block(None)
+    for i in range(0, len(vs), 3000):
+        run_batch(ck, camps, vs[i : i + 3000])
+        if ck.failures:
+            return
+
+
+def search_inherit(ck: Check) -> None:
+    """Targeted search: inherited members re-listed by a subclass schema (all kinds, both TypedDict syntaxes)."""
+    from . import c05_inherit
+
+    camps = c05_inherit.make_campaigns(ck, {k: ck.campaign("search (inherited members): " + k) for k in ("ir", "render", "sem", "oracle")})
+    c05_inherit.run_batch(ck, camps, c05_inherit.core_block())
+    if not ck.failures:
+        c05_inherit.run_batch(ck, camps, c05_inherit.random_groups(ck, 3000))
+
+
 def run(ck: Check) -> None:
-    from . import c05_groups, c05_union
+    from . import c05_groups, c05_inherit, c05_refs, c05_union
 
     quick = ck.tier == "quick"
     ck.translate("FieldTemplates", field_templates.generate())
     ck.prove()
     ck.assumptions += [
-        "abstract space: one member of scalar / array-of-scalar / dict-of-scalar type, or an anyOf / oneOf of scalar alternatives ({type: T}, {type: [T, null]}, OpenAPI {type: T, nullable: true}, {type: null}; at least one alternative has a type); $ref-typed members, const, default_factory extras and unions over containers or references are outside it",
+        "abstract space: one member of scalar / array-of-scalar / dict-of-scalar type, or an anyOf / oneOf of scalar alternatives ({type: T}, {type: [T, null]}, OpenAPI {type: T, nullable: true}, {type: null}; at least one alternative has a type), or a $ref to an object definition (plain / type: [object, null] / OpenAPI nullable: true; default absent or null); const, default_factory extras, model-typed defaults and unions over containers or references are outside it",
+        "$ref-typed members: which parse order a document layout produces (definition before / after the referring schema, in a file loaded earlier / later, fetched while the reference is resolved) is the harness's reading of the parser; the model's answer provably does not depend on it (ref_member_independent_of_definition_order), so a wrong reading cannot hide a disagreement",
+        "inherited members: single inheritance chains Base <- [Mid <-] Sub built with allOf + $ref; what a re-declared member means in a subclass (pydantic / msgspec / TypedDict read the re-declaration alone; dataclasses pick up the class attribute a literal default left on the base; dataclasses and msgspec keep the position of a re-declared field and refuse a field without default after one with a default) is authored in Model/FieldInherit.lean and validated against the exec'd classes except for msgspec",
         "the default VALUE is abstracted to its class (none given / null / falsy / truthy / string / empty or non-empty list / empty or non-empty dict); equality of the materialised value is checked by the end-to-end oracle on concrete realisations, not by a theorem",
         "Sem (what a rendered member means in pydantic 1, pydantic 2, dataclasses, TypedDict, msgspec) is authored; validated in this run against the exec'd classes except for msgspec, which is not installed (read statically from the AST)",
         "TypedDict requiredness is read from the resolved annotation (NotRequired[...]), not from __required_keys__, because the emitted module uses `from __future__ import annotations` (PEP 655 limitation)",
@@ -1221,14 +1280,22 @@ def run(ck: Check) -> None:
         pairs = [g for g in pairs if prng.chance(1, 4)]
     c05_groups.run_batch(ck, camps, pairs + c05_groups.random_groups(ck, 500 if quick else 3000))
     campaign_order(ck, 200 if quick else 4000)
+    # `$ref`-typed members: a reference to a (nullable) object definition, in every definition order and across files
+    c05_refs.campaign_refrule(ck, 400 if quick else 4000)
+    run_batch(ck, camps, c05_refs.core_block() + (c05_refs.stratified(ck, 150) if quick else c05_refs.block(ck)))
+    # inherited members re-listed as required by a subclass schema
+    icamps = c05_inherit.make_campaigns(ck, camps)
+    c05_inherit.run_batch(ck, icamps, c05_inherit.core_block(quick=quick) + c05_inherit.random_groups(ck, 150 if quick else 4000))
     ck.notes["space"] = {
         "base_block": "kind x dialect/null-source x required x default class x type x constraint x 7 options (own required list, plain name): 105600 valid vectors",
         "renaming_block": f"listed members x where listed (3) x name kind (4) x snake-case-field x {{strict-nullable, use-default, force-optional}}: {len(renaming_vectors()) if not quick else 124800} vectors",
         "union_block": "union-typed members: core (all lists of <= 2 alternatives over {T, [T,null], null} x kind x spelling x required) always; thorough adds kind x lists of alternatives (<= 2 over two types and null, 3 over {T,[T,null],null,U}, OpenAPI lists with a nullable:true alternative) x spelling x required x {no default, null default} x strict-nullable with the other dimensions drawn",
+        "ref_block": "$ref-typed members: kind x dialect x definition (plain / type list with null / OpenAPI nullable keyword) x where the definition stands (root-referrer, before, after, file loaded earlier / later, external file; OpenAPI: before / after) x required; always complete with options off (+ strict-nullable for OpenAPI); quick +300 stratified over all other dimensions; thorough: x default (none / null) x {strict-nullable, use-default, force-optional, strip-default-none} x where `required` is written, rest drawn",
+        "inherit_block": "inherited members: kind x where the subclass lists the inherited member (allOf owner / sibling item / item with properties) x second inherited member (plain / non-identifier key, re-listed or not) x own member (none / plain / non-identifier key) x chain (depth 1 both definition orders, depth 2) always complete with options off; plus random chains (1-3 base members of any archetype, 0-2 own members, any subset re-listed, all options)",
         "sibling_block": "every ordered pair of scalar member archetypes (null source x required/optional/default/null default) of one primitive type x dialect x strict-nullable x kind x layout (same class / one per schema); quick: a quarter of it, string only; plus random groups of 2-3 members (scalar, array, dict, union-typed) in all orders",
         "tier_covers": "all blocks exhaustively (spelling options, realisations and the non-enumerated dimensions of the union block drawn per vector)" if not quick else "stratified sample over the product of all dimensions + corpus + union core block + a quarter of the sibling block",
     }
-    ck.search_hooks += [search_siblings, search_union, search_exhaustive]
+    ck.search_hooks += [search_refs, search_inherit, search_siblings, search_union, search_exhaustive]
     known_findings(ck)
 
 
@@ -1241,6 +1308,10 @@ def replay(ck: Check, path: str) -> int:
         bad = "members" in r and (bad_order([h for _, h in r["members"]]) or r["loads"] != "ok")
         print("REPLAY-FAILS: member order / class creation" if bad else "replay: the oracle does not fail on this input")
         return 1 if bad else 0
+    if inp.get("inherit_group"):
+        from . import c05_inherit
+
+        return c05_inherit.replay_group(ck, inp["inherit_group"])
     if inp.get("group"):
         from . import c05_groups
 
